@@ -74,22 +74,65 @@ pub mod fasta {
     }
     pub open spec fn spv(sp: Seq<usize>) -> Seq<int> { sp.map_values(|x: usize| x as int) }
 
-    /// scanning the record that starts at `start` has reached `sp_end` without finding its end
-    pub open spec fn partial(b: Seq<u8>, start: int, sp: Seq<usize>, sp_end: int) -> bool {
-        0 <= start <= sp_end <= b.len() && spv(sp) == lfs(b, start, sp_end) && no_bnd(b, start, sp_end)
+    /// scanning the record that starts at `start` has reached `e` without finding its end; l = the LF offsets seen
+    pub open spec fn partial_l(b: Seq<u8>, start: int, l: Seq<int>, e: int) -> bool {
+        0 <= start <= e <= b.len() && l == lfs(b, start, e) && no_bnd(b, start, e)
     }
-    /// the record ends at the LF at sp_end-1, and b[sp_end] is the '>' of the next record
-    pub open spec fn complete(b: Seq<u8>, start: int, sp: Seq<usize>, sp_end: int) -> bool {
-        0 <= start < sp_end < b.len() && b[sp_end - 1] == 10u8 && b[sp_end] == 62u8
-            && spv(sp) == lfs(b, start, sp_end) && no_bnd(b, start, sp_end - 1)
+    /// the record ends at the LF at e-1, and b[e] is the '>' of the next record
+    pub open spec fn complete_l(b: Seq<u8>, start: int, l: Seq<int>, e: int) -> bool {
+        0 <= start < e < b.len() && b[e - 1] == 10u8 && b[e] == 62u8 && l == lfs(b, start, e) && no_bnd(b, start, e - 1)
     }
-    /// the scan stopped at the end of b: sp_end is |b|, or the LF that is the last byte of b
-    pub open spec fn at_end(b: Seq<u8>, sp_end: int) -> bool {
-        sp_end == b.len() || (sp_end == b.len() - 1 && b[sp_end] == 10u8)
+    /// the scan stopped at the end of b: e is |b|, or the LF that is the last byte of b
+    pub open spec fn at_end(b: Seq<u8>, e: int) -> bool {
+        e == b.len() || (e == b.len() - 1 && b[e] == 10u8)
     }
-    /// last record of the input: the final entry of sp is the end of the last line (final LF or |b|)
-    pub open spec fn eofrec(b: Seq<u8>, start: int, sp: Seq<usize>, sp_end: int) -> bool {
-        0 <= start <= sp_end <= b.len() && at_end(b, sp_end) && spv(sp) == lfs(b, start, sp_end).push(sp_end) && no_bnd(b, start, sp_end)
+    /// last record of the input: the final entry of l is the end of the last line (final LF or |b|)
+    pub open spec fn eofrec_l(b: Seq<u8>, start: int, l: Seq<int>, e: int) -> bool {
+        0 <= start <= e <= b.len() && at_end(b, e) && l == lfs(b, start, e).push(e) && no_bnd(b, start, e)
+    }
+    pub open spec fn partial(b: Seq<u8>, start: int, sp: Seq<usize>, e: int) -> bool { partial_l(b, start, spv(sp), e) }
+    pub open spec fn complete(b: Seq<u8>, start: int, sp: Seq<usize>, e: int) -> bool { complete_l(b, start, spv(sp), e) }
+    pub open spec fn eofrec(b: Seq<u8>, start: int, sp: Seq<usize>, e: int) -> bool { eofrec_l(b, start, spv(sp), e) }
+    /// shift every offset by d
+    pub open spec fn shl(l: Seq<int>, d: int) -> Seq<int> { l.map_values(|x: int| x + d) }
+
+    /// a window [a, a+|w|) of f has the same LFs, shifted
+    pub proof fn lemma_lfs_window(f: Seq<u8>, a: int, w: Seq<u8>, i: int, j: int)
+        requires 0 <= a, a + w.len() <= f.len(), w == f.subrange(a, a + w.len()), 0 <= i <= j <= w.len()
+        ensures lfs(f, a + i, a + j) == shl(lfs(w, i, j), a)
+        decreases j - i
+    {
+        if j > i {
+            lemma_lfs_window(f, a, w, i, j - 1);
+            assert(w[j - 1] == f[a + j - 1]);
+            if w[j - 1] == 10u8 {
+                assert(shl(lfs(w, i, j - 1).push(j - 1), a) =~= shl(lfs(w, i, j - 1), a).push(a + j - 1));
+            }
+        } else {
+            assert(shl(lfs(w, i, j), a) =~= Seq::<int>::empty());
+        }
+    }
+    /// the record predicates are stable under taking a window of the file (buffer -> file lifting)
+    pub proof fn lemma_rec_lift(f: Seq<u8>, a: int, w: Seq<u8>, start: int, l: Seq<int>, e: int)
+        requires 0 <= a, a + w.len() <= f.len(), w == f.subrange(a, a + w.len())
+        ensures complete_l(w, start, l, e) ==> complete_l(f, a + start, shl(l, a), a + e),
+                partial_l(w, start, l, e) ==> partial_l(f, a + start, shl(l, a), a + e) || (e == w.len() && 0 <= start <= e && shl(l, a) == lfs(f, a + start, a + e)),
+                eofrec_l(w, start, l, e) && a + w.len() == f.len() ==> eofrec_l(f, a + start, shl(l, a), a + e),
+    {
+        if 0 <= start <= e <= w.len() {
+            lemma_lfs_window(f, a, w, start, e);
+            assert forall|x: int| a + start <= x < a + e - 1 && #[trigger] f[x] == 10u8 && no_bnd(w, start, e - 1) implies x + 1 < f.len() && f[x + 1] != 62u8 by {
+                assert(w[x - a] == f[x]); assert(w[x - a + 1] == f[x + 1]);
+            }
+            if e < w.len() { assert(w[e] == f[a + e]); }
+            if e >= 1 && e - 1 < w.len() { assert(w[e - 1] == f[a + e - 1]); }
+            if eofrec_l(w, start, l, e) && a + w.len() == f.len() {
+                assert forall|x: int| a + start <= x < a + e && #[trigger] f[x] == 10u8 implies x + 1 < f.len() && f[x + 1] != 62u8 by {
+                    assert(w[x - a] == f[x]); assert(w[x - a + 1] == f[x + 1]);
+                }
+                assert(shl(lfs(w, start, e).push(e), a) =~= shl(lfs(w, start, e), a).push(a + e));
+            }
+        }
     }
 
     pub proof fn lemma_lfs_bounds(b: Seq<u8>, i: int, j: int)
@@ -183,6 +226,107 @@ pub mod fasta {
                 assert(spv(self.buf_pos.seq_pos@) =~= lfs(bb, self.buf_pos.start as int, pos as int).push(pos as int));
                 assert(lfs(bb, self.buf_pos.start as int, pos + 1) == lfs(bb, self.buf_pos.start as int, pos as int).push(pos as int));
             }
+//@end
+
+//@fn fasta::Reader::search ret=r tags=C01,C06
+//@spec
+        requires
+            old(self).buf_reader.wf(),
+            partial(old(self).b(), old(self).buf_pos.start as int, old(self).buf_pos.seq_pos@, old(self).search_pos as int),
+        ensures
+            [C01,C06|fasta.search.frame] final(self).same_io(old(self)),
+            [C01|fasta.search.found] r matches Ok(true) ==> (
+                (complete(final(self).b(), final(self).buf_pos.start as int, final(self).buf_pos.seq_pos@, final(self).search_pos as int) && final(self).state == old(self).state)
+                || (eofrec(final(self).b(), final(self).buf_pos.start as int, final(self).buf_pos.seq_pos@, final(self).search_pos as int)
+                    && final(self).state == State::Finished && final(self).b().len() < final(self).buf_reader.cap())),
+            [C01|fasta.search.incomplete] r matches Ok(false) ==> partial(final(self).b(), final(self).buf_pos.start as int, final(self).buf_pos.seq_pos@, final(self).search_pos as int)
+                && at_end(final(self).b(), final(self).search_pos as int) && final(self).state == State::Incomplete
+                && final(self).b().len() >= final(self).buf_reader.cap(),
+            [C01,C06|fasta.search.no_error] r is Ok,
+//@at depth=2 kw=return nth=1 expect="return Ok\(true\);"
+            proof { assert(spv(self.buf_pos.seq_pos@) =~= lfs(self.b(), self.buf_pos.start as int, self.search_pos as int).push(self.search_pos as int)); }
+//@end
+
+//@fn fasta::Reader::increment_record tags=C05,C03,C06
+//@spec
+        requires
+            old(self).buf_pos.start <= old(self).search_pos,
+            old(self).position.byte + (old(self).search_pos - old(self).buf_pos.start) <= u64::MAX,
+            old(self).position.line + old(self).buf_pos.seq_pos@.len() <= u64::MAX,
+        ensures
+            [C05,C03|fasta.increment_record.byte] final(self).position.byte == old(self).position.byte + (old(self).search_pos - old(self).buf_pos.start),
+            [C05,C03|fasta.increment_record.line] final(self).position.line == old(self).position.line + old(self).buf_pos.seq_pos@.len(),
+            [C05,C04,C01|fasta.increment_record.start] final(self).buf_pos.start == old(self).search_pos && final(self).buf_pos.seq_pos@.len() == 0,
+            [C05,C06|fasta.increment_record.frame] final(self).buf_reader == old(self).buf_reader && final(self).buf_policy == old(self).buf_policy
+                && final(self).state == old(self).state && final(self).search_pos == old(self).search_pos,
+//@end
+
+//@fn fasta::Reader::grow ret=r tags=C09,C06,C03
+//@spec
+        requires
+            old(self).wf0(),
+        ensures
+            [C09,C03,C06|fasta.grow.frame] final(self).buf_reader.buf() == old(self).buf_reader.buf() && final(self).buf_reader.base() == old(self).buf_reader.base()
+                && final(self).buf_reader.same_source(&old(self).buf_reader)
+                && final(self).buf_pos == old(self).buf_pos && final(self).position == old(self).position
+                && final(self).state == old(self).state && final(self).search_pos == old(self).search_pos
+                && final(self).wf0(),
+            [C09|fasta.grow.asks_policy_with_capacity] match old(self).buf_policy.answer(old(self).buf_reader.cap() as usize) {
+                Some(n) => r is Ok && final(self).buf_reader.cap() >= old(self).buf_reader.cap()
+                           && (old(self).b().len() == old(self).buf_reader.cap() ==> final(self).buf_reader.cap() >= n && final(self).buf_reader.cap() > old(self).buf_reader.cap()),
+                None => r matches Err(Error::BufferLimit) && final(self).buf_reader.cap() == old(self).buf_reader.cap(),
+            },
+//@end
+
+//@fn fasta::Reader::make_room tags=C03,C06,C09
+//@spec
+        requires
+            old(self).wf0(),
+            partial(old(self).b(), old(self).buf_pos.start as int, old(self).buf_pos.seq_pos@, old(self).search_pos as int),
+        ensures
+            [C03,C06|fasta.make_room.window] final(self).wf0() && final(self).buf_reader.cap() == old(self).buf_reader.cap()
+                && final(self).b() == old(self).b().subrange(old(self).buf_pos.start as int, old(self).b().len() as int)
+                && final(self).base() == old(self).base() + old(self).buf_pos.start
+                && final(self).buf_reader.same_source(&old(self).buf_reader),
+            [C03,C05|fasta.make_room.offsets_shifted] final(self).buf_pos.start == 0
+                && final(self).search_pos == old(self).search_pos - old(self).buf_pos.start
+                && spv(final(self).buf_pos.seq_pos@) == shl(spv(old(self).buf_pos.seq_pos@), -(old(self).buf_pos.start as int))
+                && partial(final(self).b(), 0, final(self).buf_pos.seq_pos@, final(self).search_pos as int)
+                && (at_end(old(self).b(), old(self).search_pos as int) ==> at_end(final(self).b(), final(self).search_pos as int)),
+            [C03,C06|fasta.make_room.frame] final(self).position == old(self).position && final(self).state == old(self).state
+                && final(self).buf_policy == old(self).buf_policy,
+//@body_start
+        let ghost old_sp = self.buf_pos.seq_pos@;
+        let ghost b_old = self.b();
+        proof {
+            lemma_lfs_bounds(self.b(), self.buf_pos.start as int, self.search_pos as int);
+            assert forall|i: int| 0 <= i < old_sp.len() implies old_sp[i] >= self.buf_pos.start by {
+                assert(spv(old_sp)[i] == old_sp[i] as int);
+            }
+        }
+//@loop 0 kw=for iter=it
+            invariant
+                it.index@ <= old_sp.len(), it.history@.len() == it.index@,
+                forall|i: int| 0 <= i < old_sp.len() ==> old_sp[i] >= consumed,
+                it.snapshot@.remaining().len() == old_sp.len(),
+                forall|j: int| 0 <= j < old_sp.len() ==> *(#[trigger] it.snapshot@.remaining()[j]) == old_sp[j],
+                forall|j: int| 0 <= j < it.index@ ==> #[trigger] it.history@[j] == it.snapshot@.remaining()[j],
+                forall|j: int| 0 <= j < it.index@ ==> *final(#[trigger] it.snapshot@.remaining()[j]) == old_sp[j] - consumed,
+//@body_end
+        proof {
+            let c = consumed as int;
+            let e = old(self).search_pos as int;
+            let b2 = self.b();
+            assert(b2 == b_old.subrange(c, b_old.len() as int));
+            lemma_lfs_window(b_old, c, b2, 0, e - c);
+            assert(self.buf_pos.seq_pos@.len() == old_sp.len());
+            assert(spv(self.buf_pos.seq_pos@) =~= shl(spv(old_sp), -c));
+            assert(shl(shl(lfs(b2, 0, e - c), c), -c) =~= lfs(b2, 0, e - c));
+            assert forall|x: int| 0 <= x < e - c && #[trigger] b2[x] == 10u8 implies x + 1 < b2.len() && b2[x + 1] != 62u8 by {
+                assert(b_old[x + c] == b2[x]);
+                if x + 1 < b2.len() { assert(b_old[x + c + 1] == b2[x + 1]); }
+            }
+        }
 //@end
 }
 
